@@ -91,6 +91,12 @@ def walk_zone(args) -> list:
                     fl["instant_before_start_is_outside"] = (iv.start - eps) not in iv and before != iv
                 except Exception:  # noqa: BLE001
                     fl["instant_before_start_is_outside"] = False
+            if iv.has_end and iv.end <= Instant.max_value:
+                # ... and its end is outside it too (half-open): the instant a transition happens at lies in the later interval only
+                try:
+                    fl["end_is_outside"] = iv.end not in iv and (iv.end - eps) in iv
+                except Exception:  # noqa: BLE001
+                    fl["end_is_outside"] = False
             # the interval's own derived properties: duration, local start and end (ISO), standard offset
             pr = {}
             try:
